@@ -3,6 +3,8 @@ package main
 import (
 	"fmt"
 	"go/ast"
+	"go/constant"
+	"go/token"
 	"go/types"
 	"strings"
 
@@ -80,6 +82,11 @@ func (g *Gen) enterLoop(li *loopInfo, ins []inEdge, fwdPreds []*ssa.BasicBlock) 
 			t = ite(alts[i].cond, alts[i].val, t)
 		}
 		entryEnv[names[pi]] = &Val{T: t, Ty: phi.Type()}
+	}
+	// niter: the number of completed iterations (0 on entry, +1 on every back edge);
+	// invariants phrased over it do not depend on how the loop counts
+	if _, clash := entryEnv["niter"]; !clash {
+		entryEnv["niter"] = &Val{T: "0", Ty: intType}
 	}
 	// inv-entry obligations
 	if li.spec != nil {
@@ -185,6 +192,45 @@ func (g *Gen) enterLoop(li *loopInfo, ins []inEdge, fwdPreds []*ssa.BasicBlock) 
 		// the source variable the phi stands for has the phi's value at the header
 		if gn := "$local:" + phi.Comment; !g.localAmbig[phi.Comment] && g.ghostSorts[gn] != "" && g.ghostSorts[gn] == g.st.sortOf(phi.Type()) {
 			g.cur.ghost[gn] = c
+		}
+	}
+	// counters: a phi whose every back-edge value is "itself plus a constant" moves in
+	// lock step with every other such phi.  The relations below are inductive by
+	// construction (each iteration adds the same constants), so they are assumed at the
+	// header without a proof obligation.  They make an invariant written over one
+	// counter survive a rewrite that introduces a second one (for x < n {x++} versus
+	// for i := 0; i < n; i++ {x++}).
+	{
+		type ctr struct {
+			cur, entry string
+			step       int64
+		}
+		var ctrs []ctr
+		li.iterT = g.freshConst(fmt.Sprintf("niter.L%d", li.idx), "Int")
+		g.assume(sx(">=", li.iterT, "0"))
+		if _, clash := hdrEnv["niter"]; !clash {
+			hdrEnv["niter"] = &Val{T: li.iterT, Ty: intType}
+		}
+		ctrs = append(ctrs, ctr{li.iterT, "0", 1})
+		for pi, phi := range li.phis {
+			step, ok := counterStep(li, phi)
+			if !ok || step == 0 {
+				continue
+			}
+			ev := entryEnv[names[pi]]
+			if ev == nil || g.st.sortOf(phi.Type()) != "Int" {
+				continue
+			}
+			c := ctr{g.vals[phi].T, ev.T, step}
+			if step > 0 {
+				g.assume(sx(">=", c.cur, c.entry))
+			} else {
+				g.assume(sx("<=", c.cur, c.entry))
+			}
+			for _, d := range ctrs {
+				g.assume(eq(sx("*", smtInt(d.step), sx("-", c.cur, c.entry)), sx("*", smtInt(c.step), sx("-", d.cur, d.entry))))
+			}
+			ctrs = append(ctrs, c)
 		}
 	}
 	// loop variables named explicitly by the contract are visible to clauses
@@ -296,6 +342,9 @@ func (g *Gen) closeLoop(li *loopInfo, q *ssa.BasicBlock, si int) error {
 			qi = i
 		}
 	}
+	if _, clash := env["niter"]; !clash && li.iterT != "" {
+		env["niter"] = &Val{T: sx("+", li.iterT, "1"), Ty: intType}
+	}
 	for pi, phi := range li.phis {
 		env[names[pi]] = g.val(phi.Edges[qi])
 	}
@@ -388,6 +437,11 @@ func (g *Gen) loopMods(li *loopInfo) (comps []string, ghosts []string) {
 					gs["$stored:"+fn] = true
 				}
 			}
+			if ld, ok := in.(*ssa.UnOp); ok && ld.Op == token.MUL {
+				if fn, _ := fieldNameOfAddr(ld.X); fn != "" && g.selectors["$loaded:"+fn] {
+					gs["$loaded:"+fn] = true
+				}
+			}
 			for _, name := range instrEvents(in) {
 				if g.selectors[name] {
 					gs["$called:"+name] = true
@@ -433,6 +487,14 @@ func (g *Gen) loopMods(li *loopInfo) (comps []string, ghosts []string) {
 						for en := range g.exportWanted {
 							if strings.HasPrefix(en, "$exp:"+name+":") {
 								gs[en] = true
+							}
+						}
+						for gn, sp := range g.snaps {
+							if sp.sel == name {
+								if g.ghostSorts[gn] == "" {
+									g.fail("at_call(%s, ...): first taken inside a loop (outside the supported subset)", sp.sel)
+								}
+								gs[gn] = true
 							}
 						}
 						for sn := range g.sumlenWanted {
@@ -498,6 +560,16 @@ func (g *Gen) collectSelectors() {
 		}
 		if e.Kind == SCall && e.Name == "stored" && len(e.Args) == 1 {
 			g.selectors["$stored:"+selName(e.Args[0])] = true
+		}
+		if e.Kind == SCall && e.Name == "at_call" && len(e.Args) == 2 {
+			g.selectors[selName(e.Args[0])] = true
+			if g.snaps == nil {
+				g.snaps = map[string]snapSpec{}
+			}
+			g.snaps[snapName(selName(e.Args[0]), e.Args[1])] = snapSpec{selName(e.Args[0]), e.Args[1]}
+		}
+		if e.Kind == SCall && e.Name == "loaded" && len(e.Args) == 1 {
+			g.selectors["$loaded:"+selName(e.Args[0])] = true
 		}
 		if e.Kind == SCall && e.Name == "sent" && len(e.Args) == 1 {
 			g.selectors["$sent:"+selName(e.Args[0])] = true
@@ -589,3 +661,49 @@ func selName(e *SExpr) string {
 }
 
 var _ = types.Typ
+
+// counterStep: phi is a counter of the loop if on every back edge its value is
+// phi + c or phi - c for one constant c.
+func counterStep(li *loopInfo, phi *ssa.Phi) (int64, bool) {
+	b := li.header
+	var step int64
+	seen := false
+	for i, p := range b.Preds {
+		if !isBackEdge(p, b) {
+			continue
+		}
+		bo, ok := phi.Edges[i].(*ssa.BinOp)
+		if !ok || (bo.Op != token.ADD && bo.Op != token.SUB) {
+			return 0, false
+		}
+		var k *ssa.Const
+		switch {
+		case bo.X == ssa.Value(phi):
+			k, _ = bo.Y.(*ssa.Const)
+		case bo.Y == ssa.Value(phi) && bo.Op == token.ADD:
+			k, _ = bo.X.(*ssa.Const)
+		}
+		if k == nil || k.Value == nil || k.Value.Kind() != constant.Int {
+			return 0, false
+		}
+		c, exact := constant.Int64Val(k.Value)
+		if !exact {
+			return 0, false
+		}
+		if bo.Op == token.SUB {
+			c = -c
+		}
+		if seen && c != step {
+			return 0, false
+		}
+		step, seen = c, true
+	}
+	return step, seen
+}
+
+func smtInt(n int64) string {
+	if n < 0 {
+		return fmt.Sprintf("(- %d)", -n)
+	}
+	return fmt.Sprintf("%d", n)
+}
